@@ -117,6 +117,7 @@ type Result struct {
 	TcSteps      int64  `json:"tc_steps,omitempty"`       // typecheckForm calls until Typecheck returned
 	TcStepsAfter int64  `json:"tc_steps_after,omitempty"` // typecheckForm calls observed after it returned
 	TcEnded      bool   `json:"tc_ended"`                 // the worker goroutine reached its end hook
+	TcCompleted  bool   `json:"tc_completed"`             // ... after running to its last statement
 	TypeSteps    []int64 `json:"type_steps,omitempty"`    // equal, unfold, contractive, infer
 
 	Run *RunResult `json:"run,omitempty"`
